@@ -426,7 +426,28 @@ func (f *Filter) Walk(rest, path Expr, nodes []any, cb func(path Expr, nodes []a
 		}
 	default:
 		rv := reflect.ValueOf(tv)
+		if rv.Kind() == reflect.Ptr {
+			rv = rv.Elem()
+		}
 		switch rv.Kind() {
+		case reflect.Struct:
+			rt := rv.Type()
+			for i := 0; i < rv.NumField(); i++ {
+				fv := rv.Field(i)
+				if !fv.CanInterface() {
+					continue
+				}
+				v := fv.Interface()
+				if f.matchWithRoot(v, nodes[0]) {
+					path[len(path)-1] = Child(rt.Field(i).Name)
+					nodes[len(nodes)-1] = v
+					if 0 < len(rest) {
+						rest[0].Walk(rest[1:], path, nodes, cb)
+					} else {
+						cb(path, nodes)
+					}
+				}
+			}
 		case reflect.Slice, reflect.Array:
 			cnt := rv.Len()
 			for i := 0; i < cnt; i++ {
